@@ -395,7 +395,7 @@ func (w *world) roomClass(id string) string {
 // keys: a real KeyRing over a scripted key database
 
 type keyDB struct {
-	expired map[string]bool // server class -> its key stopped being valid before t0
+	faults map[string]string // server class -> "expired" (valid_until_ts before t0) | "revoked" (expired_ts before t0)
 }
 
 func (db *keyDB) FetcherName() string { return "c15db" }
@@ -406,11 +406,16 @@ func (db *keyDB) FetchKeys(ctx context.Context, reqs map[gmsl.PublicKeyLookupReq
 		for cls, s := range servers {
 			if req.ServerName == s.name && req.KeyID == s.keyID {
 				vu := spec.AsTimestamp(time.Now().Add(48 * time.Hour))
-				if db.expired[cls] {
+				ex := gmsl.PublicKeyNotExpired
+				switch db.faults[cls] {
+				case "expired":
 					vu = spec.AsTimestamp(t0.Add(-time.Hour))
+				case "revoked":
+					vu = gmsl.PublicKeyNotValid
+					ex = spec.AsTimestamp(t0.Add(-time.Hour))
 				}
 				out[req] = gmsl.PublicKeyLookupResult{VerifyKey: gmsl.VerifyKey{Key: spec.Base64Bytes(s.pub)},
-					ExpiredTS: gmsl.PublicKeyNotExpired, ValidUntilTS: vu}
+					ExpiredTS: ex, ValidUntilTS: vu}
 			}
 		}
 	}
@@ -421,11 +426,8 @@ func (db *keyDB) StoreKeys(ctx context.Context, r map[gmsl.PublicKeyLookupReques
 	return nil
 }
 
-func keyRing(expired ...string) *gmsl.KeyRing {
-	db := &keyDB{expired: map[string]bool{}}
-	for _, c := range expired {
-		db.expired[c] = true
-	}
+func keyRing(faults map[string]string) *gmsl.KeyRing {
+	db := &keyDB{faults: faults}
 	return &gmsl.KeyRing{KeyFetchers: []gmsl.KeyFetcher{}, KeyDatabase: db}
 }
 
